@@ -374,6 +374,7 @@ def execute(plan):
             if not t.done():
                 t.cancel()
                 w["cancelled"] = True
+                w["t_cancel"] = world.now()
         try:
             await t
         except BaseException:  # noqa: BLE001
@@ -530,10 +531,21 @@ def oracle(plan, world, peer, waiters, term, frames_delivered, state, timeout):
         if why == "truncated":
             tk = tok.rstrip("_") if isinstance(tok, str) else tok
             hw = next((x for x in waiters if (f"tok{x['i']}" == tk or 1000 + x["i"] == tk)), None)
-            # a body is only decoded (and found malformed) for a waiter still waiting
-            if hw is None or hw.get("t_done") is None or hw["t_done"] >= t:
+            # a body is only decoded (and found malformed) for a waiter still waiting.  The
+            # moment a waiter stops waiting is when its timeout fires / it is cancelled, which
+            # the harness observes a few loop iterations (microseconds) later: a frame that
+            # arrives after the deadline, or after the cancel call, meets a done future
+            waiting = hw is None or hw.get("t_done") is None or hw["t_done"] >= t
+            if waiting and hw is not None and hw.get("outcome") is not None:
+                if hw["outcome"][0] == "timeout" and t >= hw["t_send"] + timeout - 1e-6:
+                    waiting = False
+                if hw["outcome"][0] == "cancelled" and hw.get("t_cancel") is not None \
+                        and t >= hw["t_cancel"]:
+                    waiting = False
+            if waiting:
                 tt, why_t = t, why
                 break
+            world.probe("malformed_reply_for_a_waiter_that_gave_up")
     term["why"] = why_t
     if tt is not None:
         # promptness: everyone outstanding at the terminating event is done at that instant
